@@ -168,17 +168,21 @@ PROPERTY OnlyRefines
 """
 
 
-def refinement_model(ctx, lay_spec, budget, ordered, anyorder, widths=None):
+def refinement_model(ctx, lay_spec, budget, ordered, anyorder, widths=None, heights=None):
     Nt, Nx, glue = lay_spec
     maxl = budget + 3
-    if widths:
-        # root panels of different widths (sides 1 and 2 of the L-shape, custom grids): the model's states are the same,
+    if widths or heights:
+        widths = widths or (1,) * Nx
+        # root panels of different widths / time slabs of different lengths (sides 1 and 2 of the L-shape, custom grids): the model's states are the same,
         # the real elements' widths are no longer a function of their levels
         from fractions import Fraction as F_
         xg = [F_(0)]
         for w in widths:
             xg.append(xg[-1] + F_(w))
-        lay = ml.Layout([F_(j) for j in range(Nt + 1)], xg, glue, maxl)
+        tg = [F_(0)]
+        for hgt in (heights or (1,) * Nt):
+            tg.append(tg[-1] + F_(hgt))
+        lay = ml.Layout(tg, xg, glue, maxl)
     else:
         lay = ml.Layout.uniform(Nt, Nx, glue, maxl)
     tag = "%s-b%d-%s" % (lay.key(), budget, "ord" if ordered else "view")
@@ -230,6 +234,35 @@ def refinement_model(ctx, lay_spec, budget, ordered, anyorder, widths=None):
             ctx.violation("dorfler-closure:graph:" + tag, "state graphs differ (spec-only states %d, edge diff %d/%d)"
                           % (len(only_spec), len(sedges - g["edges"]), len(g["edges"] - sedges)),
                           {"layout": lay_spec, "maxl": maxl})
+    # every marking transition judged with its own marked sets (two different markings can lead from one mesh to the same
+    # two meshes, so the unlabelled graph alone cannot tell a swapped result): result == DorflerDecl(pre, Mt, Ms)
+    lab = g.get("labelled", [])
+    if lab:
+        cap_l = 1500 if budget <= 2 else 4000
+        if len(lab) > cap_l:
+            import random as _r
+            _r.Random(len(lab)).shuffle(lab)
+            lab = lab[:cap_l]
+        events, meta = [], []
+        for pre, op, post in lab:
+            events.append({"k": "reset", "exc": "", "post": [list(k) for k in pre]})
+            meta.append(None)
+            mt = [list(k) for k in op[1]]
+            ms = [list(k) for k in (op[2] if op[0] == "mark_aniso" else op[1])]
+            events.append({"k": "dorfler", "exc": "", "kind": "dorfler_iso" if op[0] == "mark_iso" else "dorfler_aniso", "theta": 0.5, "mt": mt, "ms": ms,
+                           "post": [list(k) for k in post]})
+            meta.append((pre, op))
+        bad, jres = rm.judge(lay, events, timeout=3000)
+        st["labelled_marking_transitions_judged"] = len(lab)
+        if jres.machinery_error:
+            ctx.machinery_error("%s labelled transitions: %s" % (tag, jres.machinery_error))
+        else:
+            for l, clause in bad:
+                if meta[l - 1] is None:
+                    continue
+                pre, op = meta[l - 1]
+                _report(ctx, clause, tag + "-labelled", {"layout": lay_spec, "maxl": maxl, "pre_state": [list(k) for k in pre], "op": [op[0]] + [[list(k) for k in x] for x in op[1:]],
+                                                         "event": events[l - 1]})
     for path, probs in g["problems"]:
         for clause, text in probs:
             if clause in C06_CLAUSES and clause != "one-irregular" or (clause == "one-irregular" and ctx.prop in ("C02", "C06")):
@@ -380,8 +413,10 @@ def run(prop, tier, seed):
         st = refinement_model(ctx, lay_spec, bq if quick else bt, False, False)
         ref.append(st)
         ctx.log("refine %s" % st)
-    for lay_spec, b, widths in ([((1, 2, False), 2, (1, 3)), ((1, 3, True), 1, (2, 1, 5))] if quick else [((1, 2, False), 3, (1, 3)), ((1, 3, True), 2, (2, 1, 5)), ((1, 2, False), 3, (2, 1))]):
-        st = refinement_model(ctx, lay_spec, b, False, False, widths=widths)
+    for lay_spec, b, widths, heights in ([((1, 2, False), 2, (1, 3), None), ((1, 3, True), 1, (2, 1, 5), None), ((2, 1, False), 2, None, (1, 3))] if quick else
+                                         [((1, 2, False), 3, (1, 3), None), ((1, 3, True), 2, (2, 1, 5), None), ((1, 2, False), 3, (2, 1), None), ((2, 1, False), 3, None, (1, 3)),
+                                          ((2, 2, False), 2, (1, 3), (5, 1))]):
+        st = refinement_model(ctx, lay_spec, b, False, False, widths=widths, heights=heights)
         ref.append(st)
         ctx.log("refine-nonuniform-widths %s" % st)
     for lay_spec, b in ([((1, 2, False), 2), ((1, 1, True), 2)] if quick else [((1, 2, False), 3), ((1, 1, True), 3), ((1, 3, True), 2)]):
